@@ -13,6 +13,7 @@ import (
 	"io"
 	"io/fs"
 	"os"
+	"path"
 	"sort"
 	"strconv"
 	"strings"
@@ -65,10 +66,13 @@ func errCode(err error) string {
 	}
 	var pe *fs.PathError
 	var le *os.LinkError
+	var se *os.SyscallError
 	if errors.As(err, &pe) {
 		err = pe.Err
 	} else if errors.As(err, &le) {
 		err = le.Err
+	} else if errors.As(err, &se) {
+		err = se.Err
 	}
 	switch e := err.(type) {
 	case avfs.LinuxError:
@@ -99,8 +103,20 @@ func errPath(err error) string {
 	return "?"
 }
 
+// projMode: print only what is observable on every file system (directory sizes and link counts, and the
+// link count of a symbolic link, are file-system specific): used by the oracle streams.
+var projMode bool
+
 func showInfo(vfs avfs.VFS, info fs.FileInfo) string {
 	st := vfs.ToSysStat(info)
+	if projMode {
+		switch {
+		case info.IsDir():
+			return fmt.Sprintf("%s:-:%d:%d:%d:-", tok(info.Name()), uint32(info.Mode()), st.Uid(), st.Gid())
+		case info.Mode()&fs.ModeSymlink != 0:
+			return fmt.Sprintf("%s:%d:%d:%d:%d:-", tok(info.Name()), info.Size(), uint32(info.Mode()), st.Uid(), st.Gid())
+		}
+	}
 	return fmt.Sprintf("%s:%d:%d:%d:%d:%d", tok(info.Name()), info.Size(), uint32(info.Mode()), st.Uid(), st.Gid(), st.Nlink())
 }
 
@@ -143,6 +159,9 @@ func (w *fsWorld) apply(t []string) string {
 	case "MA":
 		err := v.MkdirAll(untok(t[2]), fs.FileMode(atoi64(t[3])))
 		if err != nil {
+			if projMode {
+				return "E " + errCode(err)
+			}
 			return "EP " + errCode(err) + " " + tok(errPath(err))
 		}
 		return "ok"
@@ -508,6 +527,18 @@ type fsGen struct {
 	snap   []snapEntry
 	admin  bool // keep view users administrators (C01 style) or mix identities (C03 style)
 	nviews int
+	single bool // one view, no handle kept open (OpenFile closes at once), no Sub
+	clean  bool // lexically clean paths only (C01's oracle stream)
+	noEval bool // no EvalSymlinks
+	links  int  // extra weight (0..3) of symbolic-link creating calls
+}
+
+// cleanIf cleans a generated path when the stream demands clean paths ("" stays "")
+func (g *fsGen) cleanIf(p string) string {
+	if !g.clean || p == "" {
+		return p
+	}
+	return path.Clean(p)
 }
 
 func (g *fsGen) existing(kind byte) string {
@@ -530,7 +561,9 @@ func pjoin(d, n string) string {
 	return d + "/" + n
 }
 
-func (g *fsGen) path() string {
+func (g *fsGen) path() string { return g.cleanIf(g.rawPath()) }
+
+func (g *fsGen) rawPath() string {
 	r := g.r
 	switch k := r.intn(22); {
 	case k < 8:
@@ -572,7 +605,9 @@ func (g *fsGen) path() string {
 	}
 }
 
-func (g *fsGen) target() string {
+func (g *fsGen) target() string { return g.cleanIf(g.rawTarget()) }
+
+func (g *fsGen) rawTarget() string {
 	r := g.r
 	switch r.intn(10) {
 	case 0, 1:
@@ -622,7 +657,10 @@ func (g *fsGen) op() string {
 	v := r.intn(g.nviews)
 	vs := strconv.Itoa(v)
 	perm := func() string { return strconv.FormatUint(uint64(fsPerms[r.intn(len(fsPerms))]), 10) }
-	if len(g.w.handles) > 0 && r.chance(2, 5) {
+	if g.links > 0 && r.intn(10) < g.links {
+		return fmt.Sprintf("SL %s %s %s", vs, tok(g.target()), tok(g.path()))
+	}
+	if !g.single && len(g.w.handles) > 0 && r.chance(2, 5) {
 		h := strconv.Itoa(r.intn(len(g.w.handles)))
 		switch k := r.intn(30); {
 		case k < 4:
@@ -696,13 +734,16 @@ func (g *fsGen) op() string {
 	case k < 83:
 		return fmt.Sprintf("%s %s %s", r.pick([]string{"ST", "LS"}), vs, tok(g.path()))
 	case k < 86:
+		if g.noEval {
+			return fmt.Sprintf("ST %s %s", vs, tok(g.path()))
+		}
 		return fmt.Sprintf("ES %s %s", vs, tok(g.path()))
 	case k < 89:
 		return fmt.Sprintf("RD %s %s", vs, tok(g.path()))
 	case k < 92:
 		return fmt.Sprintf("RF %s %s", vs, tok(g.path()))
 	case k < 94:
-		if g.nviews < 4 {
+		if g.nviews < 4 && !g.single {
 			return fmt.Sprintf("SB %s %s", vs, tok(g.path()))
 		}
 		return fmt.Sprintf("ST %s %s", vs, tok(g.path()))
